@@ -72,7 +72,8 @@ Read ==
 
 StableEv ==
   /\ Is("stable") /\ Adv /\ UNCHANGED <<hist, closer, nread, bad, thr>>
-  /\ IF Ev.res = "ok" THEN (IF Ev.op = "get" /\ Ev.val # "v1" THEN V("StableWrong") ELSE UNCHANGED viol)
+  \* a client that is the only writer of its key reads back what it wrote last (Get / GetUint64)
+  /\ IF Ev.res = "ok" THEN (IF Ev.op \in {"get", "getu"} /\ Ev.val # Ev.want THEN V("StableWrong") ELSE UNCHANGED viol)
      ELSE IF Ev.res = "closed" /\ closer /\ Ev.cs = 1 THEN UNCHANGED viol
      ELSE V("StableError")
 
